@@ -17,7 +17,9 @@ func C16_reader_cut() {
 	item := spans[:len(spans)-1] // frames of the first item
 	itemEnd := item[len(item)-1].end
 	cut := vChoose("cut", itemEnd) // 0 .. itemEnd-1: the first item is always incomplete
-	useErr := vChoose("kind", 2) == 1
+	kind := vChoose("kind", 4) // EOF / error, reported separately or together with the last bytes
+	useErr := kind%2 == 1
+	withData := kind >= 2
 	one := vChoose("chunk", 2) == 1
 	// classify the cut position
 	inPayloadOrBetween := false // strictly after a complete header of the item, or between its frames
@@ -35,7 +37,7 @@ func C16_reader_cut() {
 	api := vChoose("api", 4)
 	switch api {
 	case 0: // Reader + read until EOF
-		src := &vCutSrc{data: wire, cut: cut, useErr: useErr, one: one}
+		src := &vCutSrc{data: wire, cut: cut, useErr: useErr, one: one, withData: withData}
 		var handed [][]byte
 		rd := &Reader{Source: src, State: vSide(server), CheckUTF8: true}
 		rd.OnIntermediate = func(h ws.Header, r io.Reader) error {
@@ -60,14 +62,14 @@ func C16_reader_cut() {
 			vAssert(err != io.EOF, "cut.transport_error_not_eof")
 		}
 	case 1: // Discard
-		src := &vCutSrc{data: wire, cut: cut, useErr: useErr, one: one}
+		src := &vCutSrc{data: wire, cut: cut, useErr: useErr, one: one, withData: withData}
 		rd := &Reader{Source: src, State: vSide(server)}
 		_, err := rd.NextFrame()
 		if err == nil {
 			vAssert(rd.Discard() != nil, "cut.discard_of_cut_message_fails")
 		}
 	case 2: // ReadMessage
-		src := &vCutSrc{data: wire, cut: cut, useErr: useErr, one: one}
+		src := &vCutSrc{data: wire, cut: cut, useErr: useErr, one: one, withData: withData}
 		ms, err := ReadMessage(src, vSide(server), nil)
 		vAssert(err != nil, "cut.readmessage_fails")
 		if inPayloadOrBetween {
@@ -83,7 +85,7 @@ func C16_reader_cut() {
 			}
 		}
 	case 3: // readData
-		rw := &vCutRW{vCutSrc: vCutSrc{data: wire, cut: cut, useErr: useErr, one: one}}
+		rw := &vCutRW{vCutSrc: vCutSrc{data: wire, cut: cut, useErr: useErr, one: one, withData: withData}}
 		p, _, err := readData(rw, vSide(server), ws.OpText|ws.OpBinary)
 		vAssert(err != nil, "cut.readdata_fails")
 		_ = p // bytes returned together with a non-nil error are not a success report (not asserted)
